@@ -3,7 +3,7 @@ from pyvc.verify import Post, Case, Equiv
 from contracts import common
 
 PROPERTY = 'C03'
-REF_MODULES = ['ref_auto', 'ref_core', 'ref_match', 'ref_reduce', 'ref_extra']
+REF_MODULES = ['ref_auto', 'ref_core', 'ref_match', 'ref_reduce', 'ref_extra', 'ref_stream']
 
 
 def config(cfg):
@@ -38,8 +38,132 @@ def contracts():
                     requires=['True']))
     from contracts import extra
     cs += common.shared(extra, ['core.Invoke.glomit', 'core.Coalesce.__init__', 'core.Call.__init__'])
+    # what the composite specs hold is what they were given: constructors, and the copy-on-write builders of Invoke (shared with C17)
+    from contracts import X_ctor, C17
+    cs += common.shared(X_ctor, ['core.Pipe.__init__', 'core.Val.__init__', 'core.Spec.__init__', 'core.Ref.__init__', 'core.Auto.__init__', 'core.Fill.__init__',
+                                 'core.Invoke.__init__'])
+    cs += common.shared(C17, ['core.Invoke.constants', 'core.Invoke.specs', 'core.Invoke.star'])
     return cs
 
+
+
+def bounded_composition(tier, seed):
+    """composite specs built from a DESCRIPTION (so the oracle never reads a field of a constructed spec object) against a direct interpreter of the
+    statement: tuple / Pipe chain each step's output into the next (SKIP keeps the value, STOP ends THAT chain), dict / list specs collect
+    (SKIP omitted, STOP ends the collection), Coalesce returns the first alternative that does not fail, Val yields its constant.
+    Bound: random descriptions of depth <= 3 (quick: 400, thorough: 4000) x 3 targets, plus all two-level nestings of chains with STOP/SKIP."""
+    import random, itertools, glom
+    from glom import glom as G, Pipe, Val, Coalesce, SKIP, STOP, T, GlomError
+    rnd = random.Random(seed or 1)
+    fns = {'inc': lambda t: t + 1 if isinstance(t, int) else t, 'wrap': lambda t: [t], 'ident': lambda t: t, 'tolist': lambda t: list(t) if isinstance(t, (list, tuple, dict)) else [t]}
+    leaves = [('key', 'a'), ('key', 'b'), ('key', 'zz'), ('fn', 'inc'), ('fn', 'wrap'), ('fn', 'ident'), ('fn', 'tolist'), ('val', 7), ('val', 'SKIP'), ('val', 'STOP'), ('t', 'a')]
+    def gen(depth):
+        r = rnd.random()
+        if depth <= 0 or r < 0.35:
+            return rnd.choice(leaves)
+        kind = rnd.choice(['tuple', 'pipe', 'tuple', 'pipe', 'dict', 'list', 'coalesce'])
+        if kind in ('tuple', 'pipe'):
+            return (kind, [gen(depth - 1) for _ in range(rnd.randint(0, 3))])
+        if kind == 'dict':
+            return ('dict', [(k, gen(depth - 1)) for k in ('x', 'y')[:rnd.randint(1, 2)]])
+        if kind == 'list':
+            return ('list', gen(depth - 1))
+        return ('coalesce', [gen(depth - 1) for _ in range(rnd.randint(1, 3))])
+    def build(d):
+        k = d[0]
+        if k == 'key': return d[1]
+        if k == 't': return T[d[1]]
+        if k == 'fn': return fns[d[1]]
+        if k == 'val': return Val({'SKIP': SKIP, 'STOP': STOP}.get(d[1], d[1]))
+        if k == 'tuple': return tuple(build(x) for x in d[1])
+        if k == 'pipe': return Pipe(*[build(x) for x in d[1]])
+        if k == 'dict': return {kk: build(x) for kk, x in d[1]}
+        if k == 'list': return [build(d[1])]
+        return Coalesce(*[build(x) for x in d[1]])
+    class Fail(Exception):
+        pass
+    class Unspecified(Exception):
+        pass
+    def ev(t, d):
+        k = d[0]
+        if k in ('key', 't'):
+            try:
+                return t[d[1]] if isinstance(t, dict) or k == 't' else getattr(t, d[1])
+            except Exception:
+                raise Fail()
+        if k == 'fn': return fns[d[1]](t)
+        if k == 'val': return {'SKIP': SKIP, 'STOP': STOP}.get(d[1], d[1])
+        if k in ('tuple', 'pipe'):
+            for step in d[1]:
+                nxt = ev(t, step)
+                if nxt is SKIP: continue
+                if nxt is STOP: break
+                t = nxt
+            return t
+        if k == 'dict':
+            out = {}
+            for kk, x in d[1]:
+                v = ev(t, x)
+                if v is SKIP: continue
+                if v is STOP: raise Unspecified()     # the statement does not say what a STOP entry of a dict spec means
+                out[kk] = v
+            return out
+        if k == 'list':
+            if not isinstance(t, (list, tuple, dict)):
+                raise Fail()          # the default registry iterates lists, tuples and dicts (keys); strings and scalars are not iterable targets
+            it = iter(t)
+            out = []
+            for item in it:
+                v = ev(item, d[1])
+                if v is SKIP: continue
+                if v is STOP: break
+                out.append(v)
+            return out
+        for alt in d[1]:
+            try:
+                return ev(t, alt)
+            except Fail:
+                continue
+        raise Fail()
+    targets = [{'a': {'a': 1, 'b': [1, 2]}, 'b': [{'a': 1}, {'a': 2, 'b': 3}]}, {'a': 5, 'b': {'a': [3]}}, [{'a': 1, 'b': 2}, {'a': 3}]]
+    descs = []
+    chains = [[('fn', 'inc')], [('val', 'STOP'), ('fn', 'inc')], [('fn', 'inc'), ('val', 'STOP'), ('fn', 'inc')], [('val', 'SKIP'), ('fn', 'inc')], []]
+    for outer_kind, inner_kind in itertools.product(('tuple', 'pipe'), repeat=2):
+        for inner in chains:
+            for pos in range(3):
+                steps = [('fn', 'inc'), ('fn', 'inc')]
+                steps.insert(pos, (inner_kind, inner))
+                descs.append((outer_kind, [('key', 'a')] + steps))
+    descs += [gen(3) for _ in range(4000 if tier == 'thorough' else 400)]
+    cases, failures = 0, []
+    for d in descs:
+        for t in targets:
+            cases += 1
+            try:
+                exp = ('ok', ev(t, d))
+            except Fail:
+                exp = ('fail', None)
+            except Exception as e:
+                continue        # unspecified by the statement, or the oracle's own leaf function rejected the value (e.g. iterating an int): not a composition question
+            try:
+                got = ('ok', G(t, build(d)))
+            except GlomError:
+                got = ('fail', None)
+            except Exception as e:
+                got = ('exc', type(e).__name__)
+            if got != exp and not (exp[0] == 'fail' and got[0] != 'ok'):
+                failures.append({'key': 'composition', 'input': {'spec': repr(d), 'target': repr(t)}, 'observed': repr(got)[:200], 'expected': repr(exp)[:200],
+                                 'replay_code': None})
+                if len(failures) >= 3:
+                    break
+        if len(failures) >= 3:
+            break
+    return {'name': 'composite specs from descriptions vs a direct interpreter of the statement', 'label': 'bounded', 'cases': cases,
+            'bound': 'all two-level chain nestings with STOP/SKIP at 3 positions x tuple/Pipe; %d random descriptions of depth <= 3; 3 targets' % (len(descs) - 60),
+            'failures': failures}
+
+
+BOUNDED = [bounded_composition]
 
 ASSUMPTIONS = [
     'G-contract: scope[glom](t, s, sc) is an uninterpreted transformer of the whole modelled state (opaque user world token, scope frames, lists); '
